@@ -113,7 +113,7 @@ func init() {
 		}
 		// continue under the assumption that it holds (so one defect is not re-reported downstream);
 		// a proved assertion is implied by the path condition and need not be added.
-		if failed {
+		if failed && !c.Const {
 			in.Assume(c)
 		}
 		if !c.Const && failed && !in.Feasible() {
